@@ -1192,6 +1192,19 @@ def callback_failure_ok(fail_at, alive: bool, n_items: int = 3, strict_peer: boo
                 return False
         except Exception:
             return False
+    # ... and it ends with the connection's EOF, never with somebody else's error
+    try:
+        recv_nb(ch3)
+        return False
+    except EOFError:
+        pass
+    try:
+        waitclose_nb(ch3)
+        return False
+    except gb.RemoteError:
+        return False
+    except EOFError:
+        pass
     # the connection stayed up until the real end of the stream
     if not isinstance(getattr(A, "_error", None), EOFError):
         return False
@@ -1215,6 +1228,13 @@ def callback_failure_ok(fail_at, alive: bool, n_items: int = 3, strict_peer: boo
         except gb.RemoteError as e:
             if TOKEN not in str(e):
                 return False
+        try:
+            ch1.waitclose()       # the error is reported exactly once
+            return False
+        except gb.RemoteError:
+            return False
+        except EOFError:
+            pass                  # (the scripted connection has ended as well)
         try:
             ch1.send(1)
             return False
@@ -1250,6 +1270,13 @@ def callback_failure_ok(fail_at, alive: bool, n_items: int = 3, strict_peer: boo
             return False
         except EOFError:
             pass
+    try:
+        waitclose_nb(p1)
+        return False
+    except gb.RemoteError:
+        return False              # already delivered once
+    except EOFError:
+        pass
     return True
 
 
@@ -1315,6 +1342,20 @@ def remote_body_failure_ok(n_sends, raises: bool, sibling_items) -> bool:
         pass
     if c3.isclosed():      # only the connection end (sendonly) touched the sibling
         return False
+    try:
+        recv_nb(c3)
+        return False
+    except gb.RemoteError:
+        return False       # the sibling never sees the other channel's error
+    except EOFError:
+        pass
+    try:
+        waitclose_nb(c1)
+        return False
+    except gb.RemoteError:
+        return False       # exactly once: receive() above consumed it
+    except EOFError:
+        pass
     return True
 
 
@@ -1379,7 +1420,7 @@ def callback_history_ok(n_items, setcb_pos, end_cause: str, want_endmarker: bool
     return seen == want and 1 not in G._channelfactory._callbacks
 
 
-def multichannel_queue_ok(n1, n2, want_endmarker: bool, close1: bool) -> bool:
+def multichannel_queue_ok(n1, n2, want_endmarker: bool, close1: bool, late_queue: bool = False) -> bool:
     """MultiChannel.make_receive_queue over two member channels: per member the queue shows its
     items in order, then (if requested) exactly one endmarker."""
     from execnet.multi import MultiChannel
@@ -1396,6 +1437,8 @@ def multichannel_queue_ok(n1, n2, want_endmarker: bool, close1: bool) -> bool:
     G = make_gateway(wire)
     c1, c2 = G.newchannel(), G.newchannel()
     mc = MultiChannel([c1, c2])
+    if late_queue:
+        pump_frames(G)      # everything (items, the close of member 1) has arrived before the queue is made
     q = mc.make_receive_queue(endmarker=END) if want_endmarker else mc.make_receive_queue()
     if mc.make_receive_queue() is not q:
         return False
